@@ -197,6 +197,7 @@ void runFix(Src &src, Case &c)
     const bool withOther = allowBad && src.flip(40);
     const bool withLoose = allowBad && src.flip(30);
     const bool withParentless = allowBad && src.flip(35);
+    const bool saturate = src.flip(25); // first give one or two variables a public and a private need, then add the rest
     for (size_t i = 0; i < nComps; ++i) {
         FComp fc;
         fc.name = "c" + std::to_string(i);
@@ -254,6 +255,48 @@ void runFix(Src &src, Case &c)
     // ---- equivalences, chosen by relation kind so that every kind is frequent
     std::set<std::pair<int, int>> have;
     int last = -1;
+    auto addEq = [&](int a, int b) {
+        have.insert({std::min(a, b), std::max(a, b)});
+        FEq e;
+        if (src.flip(50)) {
+            e.a = b;
+            e.b = a;
+        } else {
+            e.a = a;
+            e.b = b;
+        }
+        f.eqs.push_back(e);
+    };
+    if (saturate) {
+        int s1 = src.pick(treeVars);
+        std::vector<int> far;
+        for (int v : treeVars) {
+            if (v != s1 && f.rel(s1, v) == REL_UNREACHABLE) {
+                far.push_back(v);
+            }
+        }
+        int s2 = allowBad && !far.empty() ? src.pick(far) : src.pick(treeVars);
+        for (int sv : {s1, s2}) {
+            for (int want = 0; want < 2; ++want) {
+                std::vector<int> cand;
+                for (size_t v = 0; v < f.vars.size(); ++v) {
+                    int vi = static_cast<int>(v);
+                    Rel r = vi == sv ? REL_SAME_COMPONENT : f.rel(sv, vi);
+                    bool fits = want == 0 ? (r == REL_SIBLING || r == REL_IN_PARENT) : r == REL_IN_CHILD;
+                    if (fits && have.count({std::min(sv, vi), std::max(sv, vi)}) == 0) {
+                        cand.push_back(vi);
+                    }
+                }
+                if (!cand.empty()) {
+                    addEq(sv, src.pick(cand));
+                }
+            }
+        }
+        if (allowBad && s1 != s2 && f.rel(s1, s2) == REL_UNREACHABLE && have.count({std::min(s1, s2), std::max(s1, s2)}) == 0 && src.flip(60)) {
+            addEq(s1, s2);
+        }
+        last = s1;
+    }
     for (size_t k = 0; k < nEq; ++k) {
         int a = (last >= 0 && src.flip(45)) ? last : src.pick(treeVars);
         last = a;
@@ -282,17 +325,7 @@ void runFix(Src &src, Case &c)
         if (cand.empty()) {
             continue;
         }
-        int b = src.pick(cand);
-        have.insert({std::min(a, b), std::max(a, b)});
-        FEq e;
-        if (src.flip(50)) {
-            e.a = b;
-            e.b = a;
-        } else {
-            e.a = a;
-            e.b = b;
-        }
-        f.eqs.push_back(e);
+        addEq(a, src.pick(cand));
     }
     // ---- requirement per variable, from the definition
     const size_t nv = f.vars.size();
@@ -375,6 +408,13 @@ void runFix(Src &src, Case &c)
     }
     c.cls("helper=fixVariableInterfaces");
     c.cls(expectedReturn ? "fix:expect-true" : "fix:expect-false");
+    if (!expectedReturn && allBadHidden) {
+        bool inModelOnly = true;
+        for (const auto &k : badKinds) {
+            inModelOnly = inModelOnly && (k == "cousin" || k == "uncle" || k == "grandparent");
+        }
+        c.cls(inModelOnly ? "fix:every-bad-equivalence-behind-public+private(both ends in the model)" : "fix:every-bad-equivalence-behind-public+private");
+    }
     c.text = fixText(f);
     c.hash = hashStr(c.text);
     c.weight = c.text.size();
@@ -1126,7 +1166,7 @@ Property property = {
     "C19",
     "exploration",
     "The first tape value picks the helper. fixVariableInterfaces: a component tree of depth <= 4 (2-6 components, 2-12 variables, optionally a second model, a component in no model and a parentless variable), "
-    "1-8 equivalences chosen by relation kind (siblings, parent/child, grandparent, cousin, other model, parentless) added in tape order, interface strings from {absent, none, public, private, public_and_private, garbage}; "
+    "1-13 equivalences chosen by relation kind (siblings, parent/child, grandparent, cousin, other model, parentless) added in tape order, interface strings from {absent, none, public, private, public_and_private, garbage}; "
     "the requirement per variable and the expected return value are recomputed from the tree. linkUnits: 1-4 components whose variables hold units in 7 situations (absent, standard by name/object, by name, "
     "unowned definition, the model's object, another model's object) x names the model does / does not define. clean: genValidModel output seeded with 1-8 bare components and 0-3 bare units and look-alikes "
     "(only name / id / math / variable / reset / import, only unit child) at tape-chosen parents and sibling positions; expected model = spec with the documented-empty items removed from the leaves, rebuilt and compared by ordered dump. "
